@@ -1,7 +1,8 @@
 (* C19 — pinned statements. Nothing but statements, [exact] and Print Assumptions.
    Everything here is about the tables that tools/gen_units.py regenerates from unit.rs on every run. *)
-From Coq Require Import List ZArith NArith QArith Bool.
-From MV Require Import SFloat.Defs SFloat.Str C19.UnitsGen C19.Model C19.Spec C19.Proofs.
+From Coq Require Import List ZArith NArith Reals QArith Qreals Bool.
+From Flocq Require Import Core.Core IEEE754.Binary IEEE754.Bits.
+From MV Require Import SFloat.Defs SFloat.Facts SFloat.Str C19.UnitsGen C19.Model C19.Spec C19.Proofs C19.ProofsFloat C19.ProofsValue.
 Import ListNotations.
 Local Open Scope Q_scope.
 
@@ -48,6 +49,94 @@ Theorem c19_names_distinct : forall a b : tag, unit_name (tag_unit a) = unit_nam
 Proof. exact names_distinct. Qed.
 Print Assumptions c19_names_distinct.
 
+(* ---- binary64 ---- *)
+Local Open Scope R_scope.
+(* the constant the compiler computes for `(x as f64)/(y as f64)` (one IEEE division of two exactly converted
+   integers) is the documented ratio correctly rounded to binary64: within half an ulp *)
+Theorem c19_ratio_f64 : forall a b : tag, convertible a b = true ->
+  R64 (ratio_f64 a b) = rnd64 (Q2R (spec_ratio (tag_unit a) (tag_unit b))) /\
+  Binary.is_finite 53 1024 (ratio_f64 a b) = true.
+Proof. intros a b H. split; [apply ratio_f64_is_rounded_spec; exact H | apply ratio_f64_correct; exact H]. Qed.
+Print Assumptions c19_ratio_f64.
+
+(* when the documented factor is 1 the observation is handed on untouched (integers stay integers) *)
+Theorem c19_convert_identity : forall a b : tag, convertible a b = true ->
+  Q2R (spec_ratio (tag_unit a) (tag_unit b)) = 1 -> forall o, convert (ratio_f64 a b) o = o.
+Proof. exact convert_identity. Qed.
+Print Assumptions c19_convert_identity.
+
+(* otherwise every kind of observation is multiplied by the constant; occurrences are kept *)
+Theorem c19_convert_scales : forall a b : tag, convertible a b = true ->
+  Q2R (spec_ratio (tag_unit a) (tag_unit b)) <> 1 -> forall o,
+  convert (ratio_f64 a b) o = match o with
+                              | OUnsigned u => OFloat (f64_mul (u64_as_f64 u) (ratio_f64 a b))
+                              | OFloat f => OFloat (f64_mul f (ratio_f64 a b))
+                              | ORepeated t n => ORepeated (f64_mul t (ratio_f64 a b)) n
+                              end.
+Proof. exact convert_scales. Qed.
+Print Assumptions c19_convert_scales.
+
+(* quantity preserved up to floating-point rounding: for a finite number whose product stays in the normal range,
+   |emitted - original * ratio| <= (2^-52 + 2^-106) * |original * ratio|, ratio being the exact documented one;
+   multiply both sides by the target unit's size to read it as "emitted x new size = original x old size" *)
+Theorem c19_quantity : forall a b : tag, convertible a b = true ->
+  forall x : f64, Binary.is_finite 53 1024 x = true ->
+  let rho := Q2R (spec_ratio (tag_unit a) (tag_unit b)) in
+  Rabs (rnd64 (R64 x * rnd64 rho)) < bpow radix2 1024 ->
+  bpow radix2 (-1022) <= Rabs (R64 x * rnd64 rho) ->
+  Rabs (R64 (f64_mul x (ratio_f64 a b)) - R64 x * rho) <= (bpow radix2 (-52) + bpow radix2 (-106)) * Rabs (R64 x * rho).
+Proof. exact scaled_error. Qed.
+Print Assumptions c19_quantity.
+
+(* ---- value trees ---- *)
+(* every well-typed tree of WithUnit / Distribution / Mean / Option / Duration / primitive / arbitrary scripted
+   values makes the call the specification prescribes - nothing, string, validation error or metric with the same
+   unit, dimensions, flags, number and kind of observations, untouched integers and occurrences - leaving only the
+   floating-point digits to c19_quantity *)
+Theorem c19_refines_spec : forall v : value, well_typed v = true -> script_errors_ok v ->
+  agrees (write v) (spec_write v).
+Proof. exact write_agrees_spec. Qed.
+Print Assumptions c19_refines_spec.
+
+Theorem c19_emitted_unit_is_declared : forall v to os u dims fl,
+  write (WithUnit v to) = VMetric os u dims fl -> u = tag_unit to.
+Proof. exact with_unit_emits_declared_unit. Qed.
+Print Assumptions c19_emitted_unit_is_declared.
+
+Theorem c19_unit_on_string_is_error : forall v to s, write v = VString s ->
+  write (WithUnit v to) = VError [msg_unit_on_string].
+Proof. exact unit_on_string_is_error. Qed.
+Print Assumptions c19_unit_on_string_is_error.
+
+Theorem c19_wrong_unit_is_error : forall v to os u dims fl, write v = VMetric os u dims fl ->
+  u <> tag_unit (declared v) ->
+  write (WithUnit v to) = VError [msg_wrong_unit (tag_unit (declared v)) u].
+Proof. exact wrong_unit_is_error. Qed.
+Print Assumptions c19_wrong_unit_is_error.
+
+Theorem c19_right_unit_is_converted : forall v to os dims fl,
+  write v = VMetric os (tag_unit (declared v)) dims fl ->
+  write (WithUnit v to) = VMetric (map (convert (ratio_f64 (declared v) to)) os) (tag_unit to) dims fl.
+Proof. exact right_unit_is_converted. Qed.
+Print Assumptions c19_right_unit_is_converted.
+
+(* durations: milliseconds unless another time unit is declared *)
+Theorem c19_duration_default : forall s n, exists x,
+  write (PDuration s n) = VMetric [OFloat x] (U_Second NS_Milli) [] None.
+Proof. exact duration_default_unit. Qed.
+Print Assumptions c19_duration_default.
+
+Theorem c19_duration_declared : forall s n to, convertible millisecond_tag to = true -> exists x,
+  write (WithUnit (PDuration s n) to) = VMetric [x] (tag_unit to) [] None.
+Proof. exact duration_declared_unit. Qed.
+Print Assumptions c19_duration_declared.
+
+(* the translated body of Convert::convert is the one the model mirrors *)
+Theorem c19_convert_body_unchanged : convert_body_as_modelled = true.
+Proof. exact convert_body_unchanged. Qed.
+Print Assumptions c19_convert_body_unchanged.
+Local Close Scope R_scope.
+
 (* non-vacuity *)
 Example c19_example_convertible : convertible T_Terabit T_Kilobyte = true /\ unitless_source T_Terabit = false.
 Proof. split; reflexivity. Qed.
@@ -55,3 +144,19 @@ Example c19_example_ratio : ratio_q T_Terabit T_Kilobyte == 125000000 /\ ratio_q
 Proof. split; vm_compute; reflexivity. Qed.
 Example c19_example_unitless : convertible T_None T_Percent = true /\ unitless_source T_None = true.
 Proof. split; reflexivity. Qed.
+
+(* 1500 milliseconds declared as Seconds: one observation, 1.5, unit Seconds *)
+Example c19_example_duration :
+  match write (WithUnit (PDuration 1 500000000) T_Second) with
+  | VMetric [OFloat x] u [] None => f64_bits x = 4609434218613702656%N (* 1.5 *) /\ u = U_Second NS_One
+  | _ => False
+  end.
+Proof. vm_compute. split; reflexivity. Qed.
+(* a value that promised Bytes but wrote Seconds, wrapped as Kilobytes *)
+Example c19_example_wrong_unit :
+  write (WithUnit (Script T_Byte (VMetric [OUnsigned 1] (U_Second NS_One) [] None)) T_Kilobyte) =
+  VError ["value promised to write unit `Bytes` but wrote `Seconds` instead"%str].
+Proof. vm_compute. reflexivity. Qed.
+Example c19_example_well_typed :
+  well_typed (Distribution T_Kilobit [WithUnit (Script T_Gigabyte (VMetric [OUnsigned 3] (U_Byte PS_Giga) [] None)) T_Kilobit]) = true.
+Proof. reflexivity. Qed.
